@@ -126,7 +126,7 @@ theorem pack_accepts (info : CompId → CompInfo) (w : WM) (t off : Nat) (pack :
                 (w1, { final := packInit (isCreateCmd first) w1.deps initial0 }, [])).2.2 inv
           (fun hc _ => by
             rcases hnc0 hc with ⟨pi, h1, h2, h3, h4⟩
-            exact ⟨pi, h1, h2, by rw [hc, packInit_existing, h3, h2.closed], h4⟩)
+            exact ⟨pi, h1, h2, by rw [hc, packInit_existing, h3], h4⟩)
         rw [proj.1, proj.2] at this
         exact this
       by_cases hic : isCreateCmd first = true
